@@ -306,7 +306,7 @@ impl<'a> Drv<'a> {
 
     /// run one guarded engine call; classify its result
     fn call(&mut self, name: String, f: impl FnOnce(&mut Ev) -> Result<(), PPGEvaluatorError>) -> Result<(), String> {
-        let disk_at_call: Vec<String> = if self.plan.trace { self.world.borrow().disk.keys().cloned().collect() } else { vec![] };
+        let disk_at_call: Vec<String> = if self.plan.trace { self.world.borrow().disk.keys().cloned().chain(self.world.borrow().leftover.iter().cloned()).collect() } else { vec![] };
         let r = self.call_inner(name.clone(), f);
         if self.plan.trace {
             let res = match &r {
@@ -368,6 +368,13 @@ impl<'a> Drv<'a> {
                     let sig = error_sig(self.g, &s);
                     viol!(self, "C06", "call-error", format!("{}:{}", kind, sig), "{} -> {}", what, s);
                     self.rep.fatal = true;
+                    // the error leaves the evaluation stuck: not finished, nothing ready, nothing running (C05)
+                    let ev = &mut self.ev;
+                    if let Ok((fin, r, q)) = guarded(|| (ev.is_finished(), ev.query_ready_to_run(), ev.query_jobs_running())) {
+                        if !fin && r.is_empty() && q.is_empty() {
+                            viol!(self, "C05", "stall", format!("after-error:{}", kind), "after {} -> {} the evaluation is not finished, nothing is ready and nothing is running", what, s);
+                        }
+                    }
                 }
                 self.rep.log.push(format!("  => {}", s));
                 Err(s)
@@ -666,7 +673,7 @@ impl<'a> Drv<'a> {
             tries.push(("startup", String::new(), String::new(), guarded(|| ev.event_startup())));
         }
         if self.plan.trace {
-            let disk: Vec<String> = self.world.borrow().disk.keys().cloned().collect();
+            let disk: Vec<String> = self.world.borrow().disk.keys().cloned().chain(self.world.borrow().leftover.iter().cloned()).collect();
             let t: Vec<String> = tries.iter().map(|(w, j, pl, _)| format!("[{},{},{}]", crate::acc::jstr(w), crate::acc::jstr(j), crate::acc::jstr(pl))).collect();
             let post = self.post_state_json();
             self.rep.trace.push(format!("{{\"op\":\"misuse\",\"tries\":{},\"disk\":{},{}}}", crate::acc::jarr(&t), crate::acc::jarr(&disk.iter().map(|x| crate::acc::jstr(x)).collect::<Vec<_>>()), post));
@@ -761,6 +768,17 @@ impl<'a> Drv<'a> {
     }
 
     fn spoil_outputs(&mut self, j: &str) {
+        if self.kinds[j] == JobKind::Ephemeral {
+            // a failed / interrupted temp-file job: garbage may be left at its path, or nothing
+            let mut w = self.world.borrow_mut();
+            for o in &self.g.node(j).unwrap().outs {
+                if self.plan.garbage_on_fail {
+                    w.leftover.insert(o.clone());
+                } else {
+                    w.leftover.remove(o);
+                }
+            }
+        }
         if self.kinds[j] == JobKind::Output {
             let mut w = self.world.borrow_mut();
             for o in &self.g.node(j).unwrap().outs {
@@ -809,6 +827,7 @@ impl<'a> Drv<'a> {
                         JobKind::Ephemeral => {
                             // same path as when the job was an Output job: the old file is overwritten and later cleaned up
                             w.disk.remove(o);
+                            w.leftover.remove(o);
                             w.temp.insert(o.clone(), v.clone())
                         }
                         JobKind::Always => w.mem.insert(o.clone(), v.clone()),
@@ -857,6 +876,7 @@ impl<'a> Drv<'a> {
             let mut w = self.world.borrow_mut();
             for o in &self.g.node(j).unwrap().outs {
                 w.temp.remove(o);
+                w.leftover.remove(o);
             }
         }
     }
@@ -989,6 +1009,9 @@ pub fn evaluate(
 ) -> Report {
     {
         let mut w = world.borrow_mut();
+        // temporary files nobody cleaned up stay where they are
+        let left: Vec<String> = w.temp.keys().cloned().collect();
+        w.leftover.extend(left);
         w.temp.clear();
         w.mem.clear();
     }
@@ -1001,7 +1024,7 @@ pub fn evaluate(
     let role_errors: Rc<RefCell<Vec<String>>> = Rc::new(RefCell::new(vec![]));
     let role_errors2 = role_errors.clone();
     let strat = VerifStrategy {
-        present: Box::new(move |q| q.split(":::").all(|p| w2.borrow().disk.contains_key(p))),
+        present: Box::new(move |q| q.split(":::").all(|p| w2.borrow().disk.contains_key(p) || w2.borrow().leftover.contains(p))),
         altered: Box::new(move |u, d, last, cur| {
             if !recorded_values.contains(last) && role_errors2.borrow().len() < 4 {
                 role_errors2.borrow_mut().push(format!("is_history_altered({}, {}, last={:?}, current={:?}): the 'last recorded' argument is not a record of the input history{}", u, d, last, cur, if recorded_values.contains(cur) { " (the 'current' argument is: the two are swapped)" } else { "" }));
